@@ -16,11 +16,15 @@ class Facts:
         self.consts = []
         self.settings_stats = []
         self.crates = []
+        self.moved = {}
         for fn in sorted(os.listdir(facts_dir)):
             if not fn.endswith(".facts.jsonl"):
                 continue
             with open(os.path.join(facts_dir, fn)) as f:
-                for line in f:
+                lines = f.readlines()
+            lines = self._canonical_paths(lines)
+            if True:
+                for line in lines:
                     r = json.loads(line)
                     k = r["k"]
                     if k == "body":
@@ -42,6 +46,54 @@ class Facts:
                         self.crates.append(r)
         self._cg = None
         self.removed_helpers = {}   # helpers inlined into all their callers by normalise(): not bodies of their own any more
+
+    def _canonical_paths(self, lines):
+        """Items (types, free functions) that were moved to another module of the crate keep their baseline path: an item whose
+        name is unique, whose current path is not a baseline path and whose baseline path no longer exists is renamed back, textually,
+        in every fact (paths and type strings). The rules name items by the paths of the tree they were written against."""
+        import re
+        here = os.path.dirname(os.path.abspath(__file__))
+        bp = os.path.join(here, "baseline_items.json")
+        if not os.path.exists(bp):
+            return lines
+        base = json.load(open(bp))
+        cur = {"adt": set(), "fn": set(), "trait": set()}
+        for line in lines:
+            if line.startswith('{"k":"adt"') or line.startswith('{"k": "adt"') or '"k":"adt"' in line[:20]:
+                cur["adt"].add(json.loads(line)["path"])
+            elif '"k":"trait"' in line[:22] or '"k": "trait"' in line[:22]:
+                cur["trait"].add(json.loads(line)["path"])
+            elif '"k":"body"' in line[:20] or '"k": "body"' in line[:20]:
+                r = json.loads(line)
+                if r["kind"] == "fn":
+                    cur["fn"].add(strip_generics(r["path"]))
+        mapping = {}
+        for kind in ("adt", "fn", "trait"):
+            bset = set(base.get(kind, []))
+            by_name = {}
+            for p_ in bset:
+                by_name.setdefault(p_.split("::")[-1], []).append(p_)
+            cur_names = {}
+            for p_ in cur[kind]:
+                cur_names.setdefault(p_.split("::")[-1], []).append(p_)
+            for p_ in cur[kind]:
+                if p_ in bset or "::" not in p_:
+                    continue
+                nm = p_.split("::")[-1]
+                cands = [q for q in by_name.get(nm, []) if q not in cur[kind]]
+                if len(cands) == 1 and len(cur_names[nm]) == 1:
+                    mapping[p_] = cands[0]
+        if not mapping:
+            return lines
+        self.moved.update(mapping)
+        pats = [(re.compile(r"(?<![\w:])" + re.escape(a) + r"(?![\w])"), b_) for a, b_ in sorted(mapping.items(), key=lambda x: -len(x[0]))]
+        out = []
+        for line in lines:
+            for rx, b_ in pats:
+                if rx.pattern and b_ is not None:
+                    line = rx.sub(b_, line)
+            out.append(line)
+        return out
 
     def hir_bodies(self):
         """Every function body with its source-level (HIR) tree, including helpers whose MIR was inlined into their callers:
